@@ -664,9 +664,20 @@ func init() {
 				if k == "bankkeeper.Keeper.SupplyOf" {
 					// subtraction applies exactly when the requested denom is the bond denom
 					for _, c := range CallsTo(fn, "math.Int.Sub") {
-						okG := fa.HasGuard(c, func(g Guard) bool {
-							return g.Pos && g.Cond.Op == "binop" && g.Cond.Name == "==" && strings.HasSuffix(g.Cond.Args[0].String(), ".Denom") && strings.Contains(g.Cond.Args[1].String(), "BondDenom")
-						})
+						// as a relation: `if req.Denom == bondDenom {..}` and `if req.Denom != bondDenom { return }` are the same fact
+						okG := false
+						for _, rel := range fa.FactsAt(c) {
+							if rel.Op != "==" || rel.TA == nil || rel.TB == nil {
+								continue
+							}
+							a, b := rel.TA.String(), rel.TB.String()
+							if strings.Contains(a, "BondDenom") {
+								a, b = b, a
+							}
+							if strings.HasSuffix(a, ".Denom") && strings.Contains(b, "BondDenom") {
+								okG = true
+							}
+						}
 						r.Check(okG, k, "net only for the staking denom", "guarded by req.Denom == bondDenom", "the subtraction is not conditioned on the requested denom being the staking denom", r.P(c))
 					}
 				} else {
